@@ -165,6 +165,7 @@ def parseStmt (toks : List String) : Option Stmt :=
   | ["acancel", slot] => (nat? slot).map .acancel
   | ["count"] => some .count
   | ["keys"] => some .keys
+  | ["expire"] => some .expire
   | _ => none
 
 def parseProg (s : String) : Option (List Stmt) :=
@@ -178,6 +179,7 @@ def eventStr (sorted : Bool) : Event → String
   | .count o => "count=" ++ outStr sorted o
   | .keys o => "keys=" ++ outStr sorted o
   | .ev cands => "ev=" ++ pairsStr cands
+  | .exp gs => "exp=" ++ pairsStr gs
   | .skip => "skip"
   | .fail o => outStr sorted o
 
